@@ -135,6 +135,32 @@ func Gen(r *kit.Rand, tier kit.Tier, auto bool) Cfg {
 
 	c.EventCap = 300000 + total*30000
 
+	// one run in five: process IDs and page numbers whose decimal / hexadecimal
+	// digits line up (pid 1 page 0x23 next to pid 12 page 0x3, ...), the way keys
+	// built by concatenating the two would collide
+	if r.Chance(1, 5) {
+		pidMap := map[uint32]uint32{1: 1, 2: 12, 3: 123}
+		pageMap := []uint64{0x23, 0x3, 0x123, 0x13, 0x2, 0x22, 0x1, 0x11}
+		vp := func(v uint64) uint64 {
+			if int(v) < len(pageMap) {
+				return pageMap[v]
+			}
+
+			return 0x1000 + v
+		}
+
+		for i := range c.Pages {
+			c.Pages[i].PID, c.Pages[i].VPage = pidMap[c.Pages[i].PID], vp(c.Pages[i].VPage)
+		}
+
+		for i := range c.Reqs {
+			for k := range c.Reqs[i].Ops {
+				op := &c.Reqs[i].Ops[k]
+				op.PID, op.VPage = pidMap[op.PID], vp(op.VPage)
+			}
+		}
+	}
+
 	return c
 }
 
